@@ -539,21 +539,21 @@ func (s *Scheduler) verify(jobConfiguration *JobConfiguration) error {
 			return errors.New("need to set 'jobType'. must be one of: fullsync, incremental")
 		}
 		if trigger.TriggerType == TriggerTypeOnChange {
-			// if an event handler is given, that is ok in this context, so we just pass it on
-			if trigger.MonitoredDataset != "" {
-				return nil
+			// an onchange trigger needs no schedule. Its error handlers and the triggers after it are
+			// verified like any other: returning here left them unchecked and the handlers uninitialised
+			if trigger.MonitoredDataset == "" {
+				return errors.New("trigger type 'onchange' requires that 'MonitoredDataset' parameter also is set")
 			}
-			return errors.New("trigger type 'onchange' requires that 'MonitoredDataset' parameter also is set")
+		} else {
+			_, err := cron.ParseStandard(trigger.Schedule)
+			if err != nil {
+				return errors.New(
+					"trigger type " + trigger.TriggerType + " requires a valid 'Schedule' expression. But: " + err.Error(),
+				)
+			}
 		}
 
-		_, err := cron.ParseStandard(trigger.Schedule)
-		if err != nil {
-			return errors.New(
-				"trigger type " + trigger.TriggerType + " requires a valid 'Schedule' expression. But: " + err.Error(),
-			)
-		}
-
-		err = verifyErrorHandlers(trigger, jobConfiguration.ID, jobConfiguration.Title)
+		err := verifyErrorHandlers(trigger, jobConfiguration.ID, jobConfiguration.Title)
 		if err != nil {
 			return err
 		}
